@@ -187,7 +187,13 @@ func (r *FileRestorer) updateImports() error {
 	// a list of all the imports that will be in the imports block after the update
 	importsRequired := map[string]bool{}
 
+	// a file with syntax errors can have an import spec without a valid path
+	var invalid error
+
 	dst.Inspect(r.file, func(n dst.Node) bool {
+		if invalid != nil {
+			return false
+		}
 		switch n := n.(type) {
 		case *dst.Ident:
 			if n.Path == "" {
@@ -202,6 +208,14 @@ func (r *FileRestorer) updateImports() error {
 		case *dst.GenDecl:
 			if n.Tok != token.IMPORT {
 				return true
+			}
+			for _, spec := range n.Specs {
+				if is, ok := spec.(*dst.ImportSpec); ok && is.Path != nil {
+					if _, err := strconv.Unquote(is.Path.Value); err != nil {
+						invalid = fmt.Errorf("invalid import path %s: %w", is.Path.Value, err)
+						return false
+					}
+				}
 			}
 			// if this block has 1 spec and it's the "C" import, ignore it.
 			if len(n.Specs) == 1 && mustUnquote(n.Specs[0].(*dst.ImportSpec).Path.Value) == "C" {
@@ -224,6 +238,10 @@ func (r *FileRestorer) updateImports() error {
 		}
 		return true
 	})
+
+	if invalid != nil {
+		return invalid
+	}
 
 	// resolved names of all packages in use
 	resolved := map[string]string{}
